@@ -1,0 +1,80 @@
+//go:build verif
+
+package lua
+
+// Verification hooks for the bytecode well-formedness check (C07). Read-only accessors for the
+// unexported parts of a FunctionProto, the instruction codec of opcode.go, the opProps table, the
+// compiler/VM constants the checker depends on, and the (proto, pc) the VM is about to execute.
+// Nothing here changes behaviour of the library.
+
+// VerifStringConstants returns the unexported string-constant table the VM indexes for
+// GETGLOBAL/SETGLOBAL/GETTABLEKS/SETTABLEKS/SELF.
+func VerifStringConstants(p *FunctionProto) []string { return p.stringConstants }
+
+// VerifOpDecode applies every field extractor of opcode.go to one instruction word.
+func VerifOpDecode(inst uint32) (op, a, b, c, bx, sbx int) {
+	return opGetOpCode(inst), opGetArgA(inst), opGetArgB(inst), opGetArgC(inst), opGetArgBx(inst), opGetArgSbx(inst)
+}
+
+func VerifOpCreateABC(op, a, b, c int) uint32 { return opCreateABC(op, a, b, c) }
+func VerifOpCreateABx(op, a, bx int) uint32   { return opCreateABx(op, a, bx) }
+func VerifOpCreateASbx(op, a, sbx int) uint32 { return opCreateASbx(op, a, sbx) }
+
+// VerifOpSet applies one of the field setters (0 opcode, 1 A, 2 B, 3 C, 4 Bx, 5 sBx) to inst.
+func VerifOpSet(inst uint32, field int, v int) uint32 {
+	switch field {
+	case 0:
+		opSetOpCode(&inst, v)
+	case 1:
+		opSetArgA(&inst, v)
+	case 2:
+		opSetArgB(&inst, v)
+	case 3:
+		opSetArgC(&inst, v)
+	case 4:
+		opSetArgBx(&inst, v)
+	case 5:
+		opSetArgSbx(&inst, v)
+	}
+	return inst
+}
+
+// VerifOpProp is one row of opProps as plain values.
+type VerifOpProp struct {
+	Name     string
+	IsTest   bool
+	SetRegA  bool
+	ModeArgB int
+	ModeArgC int
+	Type     int
+}
+
+// VerifOpProps dumps the opProps table (index = opcode).
+func VerifOpProps() []VerifOpProp {
+	out := make([]VerifOpProp, len(opProps))
+	for i, p := range opProps {
+		out[i] = VerifOpProp{p.Name, p.IsTest, p.SetRegA, int(p.ModeArgB), int(p.ModeArgC), int(p.Type)}
+	}
+	return out
+}
+
+// VerifProtoConsts are the constants of compile.go/opcode.go the checker is parameterised by.
+func VerifProtoConsts() map[string]int {
+	return map[string]int{
+		"maxRegisters": maxRegisters, "opCodeMax": opCodeMax, "opMaxArgsA": opMaxArgsA, "opMaxArgsB": opMaxArgsB,
+		"opMaxArgsC": opMaxArgsC, "opMaxArgBx": opMaxArgBx, "opMaxArgSbx": opMaxArgSbx, "opBitRk": opBitRk,
+		"opMaxIndexRk": opMaxIndexRk, "FieldsPerFlush": FieldsPerFlush,
+	}
+}
+
+// VerifCurrentPc reports the function prototype, the pc of the instruction the main loop has just
+// fetched (cf.Pc was already incremented) and the call-stack depth; ok=false when no Lua frame is
+// current. Meant to be called from a context.Context's Done() method, which mainLoopWithContext
+// polls once per instruction after the fetch.
+func VerifCurrentPc(L *LState) (proto *FunctionProto, pc int, depth int, ok bool) {
+	cf := L.currentFrame
+	if cf == nil || cf.Fn == nil || cf.Fn.IsG || cf.Fn.Proto == nil {
+		return nil, 0, 0, false
+	}
+	return cf.Fn.Proto, cf.Pc - 1, L.stack.Sp(), true
+}
